@@ -70,10 +70,10 @@ class HeapExec(DynExec):
             lo = z3.IntVal(0)
             hi = length if length is not None else fresh(name + '_len', z3.IntSort())
         ln = z3.simplify(hi - lo)
-        st.assume(ln >= 0)
+        self.add_fact(st, ln >= 0)
         t = SEGTXT(z3.IntVal(base), lo, hi)
         if txt is not None:
-            st.assume(t == txt)
+            self.add_fact(st, t == txt)
         self.segs(st)[sid] = {'len': ln, 'txt': t, 'uni': dict(uni or {}), 'base': base, 'lo': lo, 'hi': hi}
         return sid
 
@@ -83,7 +83,7 @@ class HeapExec(DynExec):
         mid = z3.simplify(seg['lo'] + off)
         s1 = self.new_seg(st, uni=seg['uni'], base=seg['base'], lo=seg['lo'], hi=mid)
         s2 = self.new_seg(st, uni=seg['uni'], base=seg['base'], lo=mid, hi=seg['hi'])
-        st.assume(seg['txt'] == z3.Concat(self.segs(st)[s1]['txt'], self.segs(st)[s2]['txt']))
+        self.add_fact(st, seg['txt'] == z3.Concat(self.segs(st)[s1]['txt'], self.segs(st)[s2]['txt']))
         return s1, s2
 
     def item_len(self, st, it):
@@ -111,28 +111,33 @@ class HeapExec(DynExec):
         f.update(fields)
         return self.new_obj(st, kind, f)
 
-    def materialise(self, st, sid, tag='e'):
-        """a fresh record standing for one (arbitrary) element of segment sid"""
+    def materialise(self, st, sid, tag='e', off=None):
+        """a record standing for the element at offset `off` (default 0) of segment sid.  Pristine field values are
+        uninterpreted functions of (base, position): re-materialising the same position gives the same terms."""
         W = self.W
-        uni = self.segs(st)[sid]['uni']
-        val = fresh_str(tag + '_value')
-        isg = fresh_bool(tag + '_is_group')
-        cls = fresh(tag + '_cls', W.CLS)
-        tt = STy(fresh(tag + '_ttype', W.TT))
+        seg = self.segs(st)[sid]
+        uni = seg['uni']
+        b = z3.IntVal(seg['base'])
+        pos = z3.simplify(seg['lo'] + (off if off is not None else 0))
+        F = elem_functions(W)
+        val = SStr(F['value'](b, pos))
+        isg = SBool(F['is_group'](b, pos))
+        cls = F['cls'](b, pos)
+        tt = STy(F['ttype'](b, pos))
         f = {'CLS': cls, 'value': val, 'TXT': val, 'is_group': isg, 'ttype': tt,
              'parent': uni.get('parent', Opaque('unknown-parent')),
              'is_whitespace': SBool(self._b(self.contains(tt, W.T.Whitespace, st))),
              'is_keyword': SBool(self._b(self.contains(tt, W.T.Keyword, st))),
              'is_newline': SBool(self._b(self.contains(tt, W.T.Newline, st))),
-             'normalized': fresh_str(tag + '_normalized')}
+             'normalized': SStr(F['normalized'](b, pos)), '__base__': seg['base'], '__pos__': pos}
         for k, v in uni.items():
             f[k] = v
         r = self.new_obj(st, 'Token', f)
         # class facts: groups are TokenList instances with ttype None; leaves are plain Tokens with a ttype
         is_list = subclass_formula(W, cls, W.sql.TokenList)
-        st.assume(isg.z == is_list)
-        st.assume(z3.Implies(isg.z, tt.z == W.tt_none))
-        st.assume(z3.Implies(z3.Not(isg.z), z3.And(tt.z != W.tt_none, cls == W.cls_const[W.sql.Token])))
+        self.add_fact(st, isg.z == is_list)
+        self.add_fact(st, z3.Implies(isg.z, tt.z == W.tt_none))
+        self.add_fact(st, z3.Implies(z3.Not(isg.z), z3.And(tt.z != W.tt_none, cls == W.cls_const[W.sql.Token])))
         return r
 
     def _b(self, x):
@@ -274,7 +279,7 @@ class HeapExec(DynExec):
                 raise OutsideSubset('index into a possibly empty segment')
             e = self.materialise(s, it[1])
             s1, rest = self.split_seg(s, it[1], z3.IntVal(1))
-            s.assume(self.segs(s)[s1]['txt'] == self.item_txt(s, ('el', e)))
+            self.add_fact(s, self.segs(s)[s1]['txt'] == self.item_txt(s, ('el', e)))
             self._replace_seg_everywhere(s, it[1], [('el', e), ('seg', rest)])
             out.append((s, e))
         return out
@@ -352,6 +357,7 @@ class HeapExec(DynExec):
                             ka2 = self.split_at(s4, o, a)
                             items = s4.lists[o.lid]
                             s4.lists[o.lid] = items[:ka2] + tuple(s4.lists[v.lid]) + items[kb:]
+                            bump(s4, o.lid)
                             res.append(s4)
         return res
 
@@ -379,6 +385,7 @@ class HeapExec(DynExec):
                                             ka2 = self.split_at(s6, o, a)
                                             items = s6.lists[o.lid]
                                             s6.lists[o.lid] = items[:ka2] + items[kb:]
+                                            bump(s6, o.lid)
                                             nxt.append(s6)
                     else:
                         for s2, i in self.eval(tgt.slice, s1):
@@ -390,6 +397,7 @@ class HeapExec(DynExec):
                                     if len(k) != 1:
                                         raise OutsideSubset('del: element not unique')
                                     s4.lists[o.lid] = items[:k[0]] + items[k[0] + 1:]
+                                    bump(s4, o.lid)
                                     s4.notes.append(('removed', e))
                                     nxt.append(s4)
             cur = nxt
@@ -399,6 +407,7 @@ class HeapExec(DynExec):
         items = st.lists[l.lid]
         if name == 'extend' and isinstance(args[0], LRef):
             st.lists[l.lid] = items + tuple(st.lists[args[0].lid])
+            bump(st, l.lid)
             return [(st, None)]
         if name == 'insert':
             n = self.zlen(st, l)
@@ -407,6 +416,7 @@ class HeapExec(DynExec):
                 for s1, k in self.split_with_cases(s, l, pos):
                     it = s1.lists[l.lid]
                     s1.lists[l.lid] = it[:k] + (('el', args[1]),) + it[k:]
+                    bump(s1, l.lid)
                     out.append((s1, None))
             return out
         if name == 'pop':
@@ -424,6 +434,7 @@ class HeapExec(DynExec):
                         if len(k) != 1:
                             raise OutsideSubset('pop: element not unique')
                         s2.lists[l.lid] = it[:k[0]] + it[k[0] + 1:]
+                        bump(s2, l.lid)
                         s2.notes.append(('removed', e))
                         out.append((s2, e))
             return out
@@ -434,6 +445,7 @@ class HeapExec(DynExec):
             if k:
                 # identity equality (assumption 4) and no duplicates (I2): the first occurrence is the only one
                 st.lists[l.lid] = items[:k[0]] + items[k[0] + 1:]
+                bump(st, l.lid)
                 st.notes.append(('removed', x))
                 return [(st, None)]
             raise OutsideSubset('list.remove of an element that is not materialised in the list')
@@ -446,6 +458,9 @@ class HeapExec(DynExec):
                 cum = cum + self.item_len(st, it)
             raise OutsideSubset('list.index of an element that is not materialised in the list')
         return NotImplemented
+
+    def list_semantically_changed(self, before, after, lid):
+        return _canon_items(before, before.lists[lid]) != _canon_items(after, after.lists[lid])
 
     def list_of(self, v, st):
         if isinstance(v, Rec) and v.kind == 'Token':
@@ -500,6 +515,26 @@ class HeapExec(DynExec):
 
     # ------------------------------------------------------------------ foreach over lists with opaque segments
     def for_ext(self, stmt, st, it, key, lc):
+        if isinstance(it, Opaque) and it.name == 'range':
+            a = it.data
+            if len(a) == 1:
+                lo, hi, step = 0, a[0], 1
+            elif len(a) == 2:
+                lo, hi, step = a[0], a[1], 1
+            else:
+                lo, hi, step = a
+            if step not in (1, -1):
+                raise OutsideSubset('range step')
+            zlo, zhi = self.z_int(lo), self.z_int(hi)
+            n = z3.If(zhi - zlo > 0, zhi - zlo, z3.IntVal(0)) if step == 1 else \
+                z3.If(zlo - zhi > 0, zlo - zhi, z3.IntVal(0))
+
+            def at(ex_, s, k):
+                zk = ex_.z_int(k)
+                return [(s, SInt(z3.simplify(zlo + zk if step == 1 else zlo - zk)))]
+            itr = self.new_obj(st, 'seq_iter', {'SEQ': it, 'K': 0, 'N': SInt(z3.simplify(n)), 'AT': at})
+            from . import loops
+            return loops._for_over(self, stmt, st, itr, key, lc)
         if isinstance(it, Rec) and it.kind == 'Token':
             it = self.getattr(it, 'tokens', st)
         if not isinstance(it, LRef):
@@ -615,6 +650,18 @@ class HeapExec(DynExec):
                     return [(st, False)]
                 parts.append(self.eq(have, val, st))
             return [(st, self.wrapb(self.conj(parts)))]
+        if name in ('MATCH', 'NOMATCH'):
+            # MATCH(funcs, lst, i): the predicate `funcs` holds for the element at index i of lst
+            # NOMATCH(funcs, lst, lo, hi): it holds for no index in [lo, hi)   (interval summary; its two unfolding
+            # laws are instantiated by loop lemmas in the sidecar contracts)
+            funcs, lst = args[0], args[1]
+            pid = pred_id(funcs)
+            snap = z3.IntVal(snapshot_id(st, lst))
+            if name == 'MATCH':
+                return [(st, SBool(MATCHF(z3.IntVal(pid), snap, self.z_int(args[2]))))]
+            lo, hi = self.z_int(args[2]), self.z_int(args[3])
+            self.add_fact(st, z3.Implies(lo >= hi, NOMATCHF(z3.IntVal(pid), snap, lo, hi)))      # empty interval
+            return [(st, SBool(NOMATCHF(z3.IntVal(pid), snap, lo, hi)))]
         if name == 'SAME_ITEMS':
             a, b = args
             return [(st, st.lists[a.lid] == st.lists[b.lid])]
@@ -622,10 +669,84 @@ class HeapExec(DynExec):
 
     def eq(self, a, b, st):
         if isinstance(a, Rec) and isinstance(b, Rec):
-            return a.oid == b.oid
+            if a.oid == b.oid:
+                return True
+            fa, fb = st.objs.get(a.oid, {}), st.objs.get(b.oid, {})
+            if '__pos__' in fa and '__pos__' in fb and fa.get('__base__') == fb.get('__base__'):
+                return fa['__pos__'] == fb['__pos__']
+            return False
         if (isinstance(a, Rec) and b is None) or (isinstance(b, Rec) and a is None):
             return False
         return super().eq(a, b, st)
+
+
+_EF = {}
+
+
+def elem_functions(W):
+    if not _EF:
+        I = z3.IntSort()
+        _EF.update({'value': z3.Function('EL_value', I, I, z3.StringSort()),
+                    'normalized': z3.Function('EL_normalized', I, I, z3.StringSort()),
+                    'is_group': z3.Function('EL_is_group', I, I, z3.BoolSort()),
+                    'cls': z3.Function('EL_cls', I, I, W.CLS),
+                    'ttype': z3.Function('EL_ttype', I, I, W.TT)})
+    return _EF
+
+
+MATCHF = z3.Function('MATCHF', z3.IntSort(), z3.IntSort(), z3.IntSort(), z3.BoolSort())
+NOMATCHF = z3.Function('NOMATCHF', z3.IntSort(), z3.IntSort(), z3.IntSort(), z3.IntSort(), z3.BoolSort())
+_PIDS = {}
+_SNAPS = {}
+
+
+def pred_id(f):
+    if isinstance(f, Opaque) and isinstance(f.data, dict) and 'pid' in f.data:
+        return f.data['pid']
+    if isinstance(f, tuple) and len(f) == 1:
+        return pred_id(f[0])
+    k = id(f)
+    if k not in _PIDS:
+        _PIDS[k] = (next(_ids), f)
+    return _PIDS[k][0]
+
+
+def snapshot_id(st, lst):
+    """identity of the current contents of a list: (list object, number of semantic modifications so far);
+    refinements of the representation (splitting segments, materialising elements) do not change it"""
+    if isinstance(lst, Rec):
+        lst = st.objs[lst.oid]['tokens']
+    key = (lst.lid, st.ghost.get('__ver__%d' % lst.lid, 0))
+    if key not in _SNAPS:
+        _SNAPS[key] = next(_ids)
+    return _SNAPS[key]
+
+
+def bump(st, lid):
+    st.ghost['__ver__%d' % lid] = st.ghost.get('__ver__%d' % lid, 0) + 1
+
+
+def _canon_items(st, items):
+    out = []
+    for it in items:
+        if it[0] == 'seg':
+            sg = st.segs_[it[1]]
+            out.append(('seg', sg['base'], str(sg['lo']), str(sg['hi'])))
+        else:
+            v = it[1]
+            f = st.objs.get(v.oid, {}) if isinstance(v, Rec) else {}
+            if '__pos__' in f:
+                out.append(('seg', f['__base__'], str(f['__pos__']), str(z3.simplify(f['__pos__'] + 1))))
+            else:
+                out.append(('el', getattr(v, 'oid', id(v))))
+    # merge adjacent views of the same base
+    merged = []
+    for x in out:
+        if merged and x[0] == 'seg' and merged[-1][0] == 'seg' and merged[-1][1] == x[1] and merged[-1][3] == x[2]:
+            merged[-1] = ('seg', x[1], merged[-1][2], x[3])
+        else:
+            merged.append(x)
+    return tuple(merged)
 
 
 SEGTXT = z3.Function('SEGTXT', z3.IntSort(), z3.IntSort(), z3.IntSort(), z3.StringSort())
